@@ -1,8 +1,60 @@
 //! Independent access to the codecs: the upstream crates are called directly, never through pmtiles2::util.
 use std::io::{Read, Write};
 
+thread_local! {
+    /// encoder parameter set used by `compress` on this thread (0 = default)
+    static VARIANT: std::cell::Cell<u8> = const { std::cell::Cell::new(0) };
+}
+
+/// run `f` with `compress` using the given encoder parameter set: 1 = another writer's "maximum" settings (gzip level 9
+/// with file name, comment, extra field and mtime in the member header; brotli quality 9 with a 16 MiB window; zstd
+/// with a 128 MiB window (2^27, the largest a decoder accepts by default) and a content checksum), 2 = minimum settings (gzip stored blocks, brotli quality 0, zstd level 1 without
+/// content size in the frame header)
+pub fn with_variant<T>(v: u8, f: impl FnOnce() -> T) -> T {
+    let old = VARIANT.with(|c| c.replace(v));
+    let r = f();
+    VARIANT.with(|c| c.set(old));
+    r
+}
+
 /// code: 1 none, 2 gzip, 3 brotli, 4 zstd
 pub fn compress(code: u8, data: &[u8]) -> Vec<u8> {
+    match (code, VARIANT.with(|c| c.get())) {
+        (2, 1) => {
+            let mut e = flate2::GzBuilder::new().filename("tiles.json").comment("written by another tool").extra(vec![1u8, 2, 3, 4, 5]).mtime(1_700_000_000).write(Vec::new(), flate2::Compression::new(9));
+            e.write_all(data).unwrap();
+            return e.finish().unwrap();
+        }
+        (2, 2) => {
+            let mut e = flate2::write::GzEncoder::new(Vec::new(), flate2::Compression::new(0));
+            e.write_all(data).unwrap();
+            return e.finish().unwrap();
+        }
+        (3, v @ (1 | 2)) => {
+            let mut out = Vec::new();
+            {
+                let mut w = brotli::CompressorWriter::new(&mut out, 4096, if v == 1 { 9 } else { 0 }, if v == 1 { 24 } else { 10 });
+                w.write_all(data).unwrap();
+                w.flush().unwrap();
+            }
+            return out;
+        }
+        (4, 1) => {
+            // level 1 keeps the encoder's tables small; the frame header still announces the 2^27 window
+            let mut e = zstd::Encoder::new(Vec::new(), 1).unwrap();
+            e.window_log(27).unwrap();
+            e.include_checksum(true).unwrap();
+            e.write_all(data).unwrap();
+            return e.finish().unwrap();
+        }
+        (4, 2) => {
+            let mut e = zstd::Encoder::new(Vec::new(), 1).unwrap();
+            e.include_contentsize(false).unwrap();
+            e.write_all(data).unwrap();
+            return e.finish().unwrap();
+        }
+        _ => {}
+    }
     match code {
         1 => data.to_vec(),
         2 => {
